@@ -14,15 +14,15 @@ import (
 // C05 — wire format against the independent RFC 7296 codec, both directions.
 
 type c05Case struct {
-	Dir   string  `json:"dir"` // fwd | rev
-	Name  string  `json:"name"`
-	M     ref.Msg `json:"m"`
-	L     ref.Lib `json:"lib"`
-	LN    string  `json:"libname"`
-	Shape []int   `json:"list_shape,omitempty"` // fwd-shared: the payload list as indices into M.P (equal indices: one object)
-	Suite   int   `json:"suite,omitempty"`    // rev-sk: suite of the independent peer that protects the datagram
-	SenderI bool  `json:"sender_i,omitempty"` // rev-sk
-	SKFlags int   `json:"sk_flags,omitempty"` // rev-sk: flags octet of the SK generic header (critical / reserved bits)
+	Dir     string  `json:"dir"` // fwd | rev
+	Name    string  `json:"name"`
+	M       ref.Msg `json:"m"`
+	L       ref.Lib `json:"lib"`
+	LN      string  `json:"libname"`
+	Shape   []int   `json:"list_shape,omitempty"` // fwd-shared: the payload list as indices into M.P (equal indices: one object)
+	Suite   int     `json:"suite,omitempty"`      // rev-sk: suite of the independent peer that protects the datagram
+	SenderI bool    `json:"sender_i,omitempty"`   // rev-sk
+	SKFlags int     `json:"sk_flags,omitempty"`   // rev-sk: flags octet of the SK generic header (critical / reserved bits)
 }
 
 type libVar struct {
